@@ -77,4 +77,11 @@ TEXT = {
  "C19": {"level": "Proved: activations return the angle field untouched, refraction/propagation the magnitude field, dispersion magnitude 1.0, ReLU gate law, "
                   "negative charge = half turn (G); sigmoid output strictly between 0 and a non-zero in-domain magnitude, |tanh output| <= magnitude (S). "
                   "Partial (explored by metamorphic oracle): Snell, 1/m^2, q/r^n, 1/r, area invariance and shoelace.", "note": S_NOTE},
+ "C20": {"level": "The feature model (flags, default set, `all` alias, module gates, re-export gates, inner gates, cross references, feature gates in core "
+                  "files) is regenerated from the source on every run and the closure / independence / usability theorems are re-decided by the Lean kernel "
+                  "over all 64 subsets (`decide`); the tie is exhaustive: all 64 subsets plus `all` are really built with default features off and run, "
+                  "comparing build success, helper availability and bit-identical digests of a fixed battery.",
+         "note": "rustc's name resolution is abstracted as a dependency-closure relation; the translator is a regular-expression reader that fails closed; "
+                 "digests cover a fixed battery of inputs. Axioms: none beyond propext/Classical.choice/Quot.sound (decide, no native_decide).",
+         "technique": "Lean 4 kernel `decide` over a feature model regenerated from source + exhaustive real builds of all 65 configurations"},
 }
